@@ -62,6 +62,17 @@ func runC04(c map[string]interface{}) []Event {
 			e["bafter"] = encBox(b, codeEnc)
 		})
 		return []Event{e}
+	case "boxext":
+		a, b := decBox(c["a"], codeDec), decBox(c["b"], codeDec)
+		e := Event{"ev": "boxext"}
+		e["out"] = safely(func() {
+			e["emptyb"] = b.Empty()
+			x := a.Copy()
+			x.Extend(b)
+			e["ext"] = encBox(x, numEnc)
+			e["bafter"] = encBox(b, codeEnc)
+		})
+		return []Event{e}
 	case "box3":
 		a, b, cc := decBox(c["a"], codeDec), decBox(c["b"], codeDec), decBox(c["c"], codeDec)
 		e := Event{"ev": "box3"}
